@@ -1043,11 +1043,12 @@ class MySQLParser(SQLParser):
 
     @_('QUOTE_STRING')
     def quote_string(self, p):
-        return p[0].strip('\'')
+        # doubled quotes are decoded by the lexer: remove the surrounding quotes only
+        return p[0][1:-1]
 
     @_('DQUOTE_STRING')
     def dquote_string(self, p):
-        return p[0].strip('\"')
+        return p[0][1:-1]
 
 
     @_('')
